@@ -101,28 +101,25 @@ def handleDrv (line : String) : String :=
   let W : World Nat := {
     size := size,
     test := fun joint => (testTbl.lookup joint).getD (.code 1),
-    fault := fun rid ord => faults.lookup (rid, ord),
-    done := fun rid t i => ((sched.lookup (rid, t)).getD []).contains i }
+    fault := fun rid ord => faults.lookup (rid, ord) }
+  let dn : Sched := fun rid t i => ((sched.lookup (rid, t)).getD []).contains i
   let fuel := nat! (get "fuel")
   let mode := get "mode"
   let x0 : St Nat := { disk := disk, side := side0 }
   let r : LRes Nat :=
     if mode = "pass" then
       match (grp "main") with
-      | [P] => runPass cfg W P (orderBy size perm disk) fuel 0 x0
+      | [P] => runPass cfg W dn P (orderBy size perm disk) fuel 0 x0
       | _ => .inl (x0, 0)
-    else reduce cfg W (orderBy size perm) fuel (grp "first") (grp "main") (grp "last") x0
+    else reduce cfg W dn (orderBy size perm) fuel (grp "first") (grp "main") (grp "last") x0
   let (outcome, x) := match r with
     | .inl (x, _) => ("ok", x)
     | .inr (e, x) => (showErr e, x)
   let evs := x.side.log.filterMap showEv
   let keys := (passes.map (·.key)).eraseDups
-  let stat := keys.map fun k =>
-    let w := (x.side.log.filter fun e => match e with | .commit p _ _ => p == k | _ => false).length
-    let f := (x.side.log.filter fun e => match e with | .fail p => p == k | _ => false).length
-    let ex := (x.side.log.filter fun e => match e with | .sched p _ => p == k | _ => false).length
-    s!"{k}:{w}/{f}/{ex}"
-  s!"{outcome} disk={showNatList x.disk} worked={x.side.worked} failed={x.side.failed} executed={x.side.executed} bug={x.side.bug} extra={x.side.extra} stats={if stat.isEmpty then "-" else ",".intercalate stat} log={if evs.isEmpty then "-" else ",".intercalate evs}"
+  let stat := keys.map fun k => s!"{k}:{x.side.worked k}/{x.side.failed k}/{x.side.executed k}"
+  let tot (f : Nat → Nat) : Nat := (keys.map f).foldl (· + ·) 0
+  s!"{outcome} disk={showNatList x.disk} worked={tot x.side.worked} failed={tot x.side.failed} executed={tot x.side.executed} bug={x.side.bug} extra={x.side.extra} stats={if stat.isEmpty then "-" else ",".intercalate stat} log={if evs.isEmpty then "-" else ",".intercalate evs}"
 where
   natList' (s : String) : List Nat := if s = "-" || s = "" then [] else (s.splitOn ".").map nat!
 
